@@ -168,7 +168,7 @@ func adminRecordVariants(root string) {
 		for name, content := range variants {
 			for _, withGood := range []bool{false, true} {
 				os.RemoveAll(dir)
-				os.MkdirAll(dir, 0700) //nolint:errcheck
+				os.MkdirAll(dir, 0700)                                               //nolint:errcheck
 				os.WriteFile(filepath.Join(dir, "adm.admin"), []byte(content), 0600) //nolint:errcheck
 				os.WriteFile(filepath.Join(dir, "usr.user"), usr, 0600)              //nolint:errcheck
 				if withGood {
